@@ -130,6 +130,14 @@ def varargs_safe_helper(R, prefix):
                 ok = False
             if q.src(c.args[1]) != k or q.src(c.args[3]) != d:
                 ok = False
+        # every result of the helper went through the normaliser with the defaults (no shortcut that skips defaults / keyword matching)
+        rets = [nn for nn in q.scope_nodes(f.node) if isinstance(nn, ast.Return)]
+        raw = [r for r in rets if not any(isinstance(x, ast.Call) and q.call_name(x) == "get_args_tuple" and len(x.args) == 4 and q.src(x.args[3]) == d
+                                          for x in ast.walk(r))]
+        R.check(rets and not raw, prefix + ".KEY-NORMALISED", f.qualname + ":every-return", R.site(f),
+                "%s returns a tuple normalised by get_args_tuple(..., %s) on every path" % (name, d),
+                "%s can return a key that did not go through get_args_tuple with the defaults (%s): a call that omits a defaulted argument and a call that spells "
+                "it out get different keys" % (name, "; ".join(q.src(r)[:60] for r in raw)))
         R.check(ok and n_mixed == 1 and len(calls) == 2, prefix + ".VARARGS-SAFE", f.qualname, R.site(f),
                 "%s matches positional names only against as many positional arguments as there are names; overflow (*varargs) is keyed as given, "
                 "keyword-only arguments are normalised separately" % name,
@@ -317,7 +325,17 @@ def cache_body_rules(R, prefix, wrapper_fi, cache_expr_pred, what):
                 return t
         return None
     stores = [n for n in cfg.nodes if n.kind == "stmt" and isinstance(n.ast, ast.Assign) and cache_target(n.ast) is not None]
-    R.need(stores, "idiom: %s never stores into its cache" % wrapper_fi.qualname)
+    soft = [n for n, c in kit.call_sites(wrapper_fi, lambda c: q.attr_call(c)[1] in ("setdefault",) and cache_expr_pred(q.src(q.attr_call(c)[0])))]
+    R.need(stores or soft, "idiom: %s never stores into its cache" % wrapper_fi.qualname)
+    # a miss hands back what the body just produced (not whatever the cache holds by then: a concurrent miss may have filled it)
+    yv_ = y.ast.targets[0].id if isinstance(y.ast, ast.Assign) and isinstance(y.ast.targets[0], ast.Name) and isinstance(y.ast.value, ast.Yield) else None
+    after_y = [e.dst for e in cfg.out_edges(y.id, N)]
+    miss_rets = [n for n in cfg.nodes if n.kind == "stmt" and isinstance(n.ast, ast.Return) and n.ast.value is not None and cfg.find_path(after_y, [n], N, cut_nodes=[y]) is not None]
+    badr = [n for n in miss_rets if not ((isinstance(n.ast.value, ast.Name) and n.ast.value.id == yv_) or (yv_ is None and isinstance(n.ast.value, ast.Yield)))]
+    R.check(not badr and not soft, prefix + ".STORE-AFTER-SUCCESS", wrapper_fi.qualname + ":returns-fresh", site,
+            "after a miss the caller gets the value its own run of the body produced, and that value is stored",
+            "after a miss %s returns `%s` instead of the value the body just produced / stores with setdefault: of two concurrent misses for one key the "
+            "second gets (and keeps) the first one's value" % (what, q.src((badr or soft)[0].ast)[:60] if (badr or soft) else ""))
     lookups = [n for n in cfg.nodes if n.kind == "stmt" and isinstance(n.ast, ast.Return) and isinstance(n.ast.value, ast.Subscript)
                and cache_expr_pred(q.src(n.ast.value.value))]
     R.check(bool(lookups), prefix + ".LOOKUP-FIRST", wrapper_fi.qualname + ":lookup", site,
@@ -361,7 +379,11 @@ def run(R):
     y = cache_body_rules(R, "C13", w, lambda s: s == "cache", "alru_cache")
     dec = repo.fn("tools.alru_cache.decorator")
     top = repo.fn("tools.alru_cache")
-    _, cv = closure_assign(w, "cache")
+    cscope, cv = closure_assign(w, "cache")
+    R.check(cscope is dec, "C13.MAXSIZE", dec.qualname + ":per-function", R.site(dec),
+            "the LRU cache is created once per decorated function (in the function that receives fn)",
+            "the LRU cache is created in %s, not per decorated function: every function decorated with the same alru_cache(...) object shares one cache "
+            "(and one maxsize budget), so f(1) can be answered with g(1)'s entry" % (cscope.qualname if cscope is not None else "no enclosing scope"))
     okm = len(cv) == 1 and isinstance(cv[0][1], ast.Call) and q.call_name(cv[0][1]) == "LRUCache" and [q.src(a) for a in cv[0][1].args] == ["maxsize"] \
         and not [v for v in common.assigned_values(top.node, "maxsize") if v[0] != "param"] and not [v for v in common.assigned_values(dec.node, "maxsize")]
     R.check(okm, "C13.MAXSIZE", dec.qualname, R.site(dec), "maxsize reaches LRUCache(maxsize) unchanged, one cache per decorated function",
